@@ -380,3 +380,11 @@ def x8(ctx):
 
 
 RULES.append(x8)
+
+
+@rule("MC", doc="must-call census: no function of this property's files has gained an early exit in front of work it always did (every crate-local call that lay on all paths to a normal return in the reviewed tree still does)")
+def mc(ctx):
+    C.must_call_census(ctx, ctx.lib(), ['src/extract/mod.rs', 'src/extract/cost.rs', 'src/extract/with_ord.rs', 'src/egraph/mod.rs', 'src/lang.rs'])
+
+
+RULES.append(mc)
